@@ -274,8 +274,8 @@ theorem normalize_cleaning_canonical_partial (puny : Str → Str) (hpc : PunyCle
   unfold Normalize.preClean
   rw [hclean, upperQuoted_of_upperEsc hup']
 
-/-- the former witness of KF-C02-2 (and of the KF-C03-6 this work had recorded before /repo
-16f182c): a hostname ending with a raw no-break space keeps its slash, the cleaning pass leaves
+/-- the former witness of KF-C02-2 (which this work had also recorded from C03's side, under an id
+since dropped, before /repo 16f182c): a hostname ending with a raw no-break space keeps its slash, the cleaning pass leaves
 the canonical form alone -/
 example :
     canonicalizeUrl id ⟨"https".toList, false, false⟩
